@@ -11,7 +11,7 @@ typedef struct unit6 {
     int is_task, yield_to_child;
     volatile int started, at_gate, released, done;
     ABT_thread self; /* valid while the unit is alive */
-    ABT_eventual_memory evm;
+    ABT_eventual_memory evm WL_ALIGNED_MEMORY;
     ABT_eventual ev;
 } unit6;
 
@@ -20,11 +20,11 @@ static struct {
     unit6 U[MAXU];
     int n;
     volatile int join_issued[WL_MAX_ES]; /* [0]: ABT_finalize */
-    ABT_mutex_memory mm;
+    ABT_mutex_memory mm WL_ALIGNED_MEMORY;
     ABT_mutex m;     /* held by the releaser: G_MUTEX units block on it */
-    ABT_mutex_memory cmm;
+    ABT_mutex_memory cmm WL_ALIGNED_MEMORY;
     ABT_mutex cm;    /* protects the condition */
-    ABT_cond_memory cvm;
+    ABT_cond_memory cvm WL_ALIGNED_MEMORY;
     ABT_cond cv;
     volatile int cond_flag[MAXU];
     volatile int releaser_done, mutex_held;
